@@ -441,7 +441,8 @@ func (x *c15run) one(stream string, index int, k c15Case) {
 	}
 	c.Tag(stream + "/" + strings.Fields(im.Outcome + " x")[0])
 	if im.Outcome == "rejected" {
-		c.Class("rejected/" + im.Why)
+		c.Class("rejected/" + im.Why + "/" + strings.Join(k.Kinds, ","))
+		c.Tag(stream + "/rejected/" + im.Why)
 		if strings.HasPrefix(im.Why, "training:") && im.Why != "training:syntax" {
 			return // missing include / cycle: the include graph is not part of this model (C05/C19)
 		}
@@ -811,6 +812,8 @@ func (g *c15Gen) journal(nTrx int, side string, macroProb int, others int) strin
 		b.WriteString(g.trx(side, macroProb))
 		if i < nTrx-1 || g.r.Chance(4, 5) {
 			b.WriteString("\n")
+		} else {
+			return b.String() // a transaction ending the file without a blank line
 		}
 	}
 	for g.r.Chance(others, 10) {
@@ -842,16 +845,23 @@ func (g *c15Gen) training() ([]c15File, string) {
 		texts = []string{g.journal(r.Range(1, 3), "none", 0, 1)}
 		g.accts = save
 	case 3:
-		kind = "ties" // the same transaction with different accounts: equal scores
-		var b strings.Builder
+		kind = "ties" // the same transaction with different accounts: equal scores; sometimes every account in its own file
 		d, amt, com, cr := g.desc(), Pick(r, g.amts), Pick(r, g.coms), g.account()
+		var blocks []string
 		for _, a := range g.accts {
+			var b strings.Builder
 			b.WriteString(g.date() + " \"" + d + "\"\n" + cr + " " + a + " " + amt + " " + com + "\n\n")
 			if r.Chance(1, 3) {
 				b.WriteString(g.date() + " \"" + d + "\"\n" + a + " " + cr + " " + amt + " " + com + "\n\n")
 			}
+			blocks = append(blocks, b.String())
 		}
-		texts = []string{b.String()}
+		if r.Bool() {
+			kind = "ties-in-included-files"
+			texts = append([]string{""}, blocks...)
+		} else {
+			texts = []string{strings.Join(blocks, "")}
+		}
 	default:
 		nf := 1
 		if r.Chance(1, 3) {
@@ -1061,7 +1071,7 @@ func runC15(c *Ctx) {
 	}
 
 	// ---- infer: generated training x target x placeholder, library code in-process
-	n := c.N(3000, 100000)
+	n := c.N(3000, 90000)
 	for i := 0; i < n; i++ {
 		if !c.Want("infer", i) {
 			continue
@@ -1079,6 +1089,23 @@ func runC15(c *Ctx) {
 		r := c.Rng("malformed", i)
 		k := c15Generate(r)
 		k.Kinds = append(k.Kinds, "mutated")
+		if r.Bool() { // one gentle edit: these mostly still parse
+			edit := func(t string) string {
+				if len(t) == 0 {
+					return Pick(r, synInteresting)
+				}
+				p := r.Intn(len(t) + 1)
+				return t[:p] + Pick(r, []string{" ", "\t", "\n", "\r", "é", "x", "X", "0", ":", "\xff", "\xc3", "\"", "# c\n", "\n\n"}) + t[p:]
+			}
+			if r.Bool() {
+				k.Target = edit(k.Target)
+			} else {
+				j := r.Intn(len(k.Training))
+				k.Training[j].Text = edit(k.Training[j].Text)
+			}
+			x.one("malformed", i, k)
+			continue
+		}
 		switch r.Intn(3) {
 		case 0:
 			k.Target = synMutate(r, k.Target)
@@ -1094,7 +1121,7 @@ func runC15(c *Ctx) {
 	x.flush()
 
 	// ---- cli: the command itself
-	nc := c.N(300, 5000)
+	nc := c.N(300, 3000)
 	for i := 0; i < nc; i++ {
 		if !c.Want("cli", i) {
 			continue
